@@ -16,6 +16,7 @@ pub mod smutil;
 pub mod auth;
 pub mod console;
 pub mod node;
+pub mod ackchain;
 pub mod config;
 pub mod seq;
 pub mod filestore;
@@ -37,6 +38,7 @@ pub fn make(name: &str) -> Option<Box<dyn Suite>> {
         "seq" => Some(Box::new(seq::Seq::new())),
         "logfile" => Some(Box::new(logfile::LogFile::new())),
         "filestore" => Some(Box::new(filestore::FileStoreSuite::new())),
+        "ackchain" => Some(Box::new(ackchain::AckChain::new())),
         _ => None,
     }
 }
